@@ -97,7 +97,7 @@ fn one_execution(idx: Idx, ops: &[Op], ch: &mut Chooser) -> ExecVerdict {
         RunEnd::AllDone => {
             let start = &conc::preloaded(idx).model;
             match conc::linearize(&live, &coll, idx, start, ops, &out) {
-                Ok(_) => None,
+                Ok(order) => conc::check_flush_snapshot(idx, start, ops, &out, &order).into_iter().next(),
                 Err(why) => Some((
                     "not-linearizable".to_string(),
                     format!(
